@@ -496,7 +496,7 @@ pub fn stages(ctx: &Ctx) -> Vec<Stage> {
         }
         poly_case(rep, which, &p, ANCHOR_X[xi], ANCHOR_H[hi], "anchors");
     }));
-    let n_poly = tier.pick(16_000u64, 4_000_000u64);
+    let n_poly = tier.pick(160_000u64, 4_000_000u64);
     for (name, which) in [("poly-first", Formula::First), ("poly-second", Formula::Second)] {
         st.push(Stage::new(name, n_poly, move |i, rep| {
             let mut rng = Rng::for_case(seed, name, i);
@@ -509,7 +509,7 @@ pub fn stages(ctx: &Ctx) -> Vec<Stage> {
             poly_case(rep, which, &p, x, h, name);
         }));
     }
-    let n_lin = tier.pick(8_000u64, 2_000_000u64);
+    let n_lin = tier.pick(80_000u64, 2_000_000u64);
     st.push(Stage::new("linearity", n_lin, move |i, rep| {
         let mut rng = Rng::for_case(seed, "c19-linearity", i);
         let which = if i % 2 == 0 { Formula::First } else { Formula::Second };
@@ -517,7 +517,7 @@ pub fn stages(ctx: &Ctx) -> Vec<Stage> {
         let (x, h) = gen_xh(&mut rng);
         linearity_case(rep, which, &mut rng, complex, x, h);
     }));
-    let n_smooth = tier.pick(10_000u64, 2_500_000u64);
+    let n_smooth = tier.pick(100_000u64, 2_500_000u64);
     st.push(Stage::new("smooth", n_smooth, move |i, rep| {
         let mut rng = Rng::for_case(seed, "c19-smooth", i);
         let which = if i % 2 == 0 { Formula::First } else { Formula::Second };
